@@ -18,11 +18,14 @@ import (
 
 type histOp struct {
 	// Kind: upsert | delete | replace | delete2 (two entries of one list, both selected before either is deleted) |
-	// hold (select Path now and keep the selection) | delete-held (delete through the selection kept by the last hold)
+	// hold (select Path now and keep the selection) | delete-held (delete through the selection kept by the last hold) |
+	// set (Find(Path/Leaf).SetValue(Value); Src is the same write as a fragment, for the model)
 	Kind string `json:"kind"`
 	Path dm.Path `json:"path,omitempty"`
 	Path2 dm.Path `json:"path2,omitempty"`
 	Src  dm.Tree `json:"src,omitempty"` // upsert: root content; replace: content of the addressed node
+	Leaf  string `json:"leaf,omitempty"`
+	Value string `json:"value,omitempty"`
 }
 
 type histCase struct {
@@ -37,6 +40,11 @@ type histCase struct {
 func applyModel(root *dm.Node, t dm.Tree, op histOp) bool {
 	switch op.Kind {
 	case "upsert":
+		return dm.MergeContent(root, t, op.Src, dm.Upsert, false, "") == nil
+	case "set":
+		if _, _, ok := dm.Resolve(root, t, op.Path); !ok {
+			return false
+		}
 		return dm.MergeContent(root, t, op.Src, dm.Upsert, false, "") == nil
 	case "hold":
 		_, _, ok := dm.Resolve(root, t, op.Path)
@@ -165,6 +173,16 @@ type histHeld struct {
 func applyLib(mm *meta.Module, root *dm.Node, store dm.Store, model dm.Tree, op histOp, srcKind string, held *histHeld) error {
 	sel := node.NewBrowser(mm, store.Node()).Root()
 	switch op.Kind {
+	case "set":
+		p := findPath(op.Path)
+		if p != "" {
+			p += "/"
+		}
+		t, err := sel.Find(p + op.Leaf)
+		if err != nil || t == nil {
+			return fmt.Errorf("harness: Find(%s%s): sel=%v err=%v", p, op.Leaf, t != nil, err)
+		}
+		return t.SetValue(op.Value)
 	case "hold":
 		t, err := sel.Find(findPath(op.Path))
 		if err != nil || t == nil {
@@ -531,12 +549,64 @@ func histGen(prop string, stores []string) func(t *rapid.T) histCase {
 			}
 			kinds := []string{"upsert", "upsert"}
 			paths := dm.AllPaths(root, model, nil)
+			if prop == "C09" {
+				kinds = append(kinds, "set")
+			}
 			if len(paths) > 0 && prop != "C09" {
 				kinds = append(kinds, "delete", "delete", "replace")
 			}
 			var op histOp
 			op.Kind = rapid.SampledFrom(kinds).Draw(t, "opkind")
 			switch op.Kind {
+			case "set":
+				// a leaf of a case, in the module or in a container / list entry that is there, set on its own
+				holders := []dm.Path{nil}
+				for _, p := range paths {
+					if n, _, _ := dm.Resolve(root, model, p); n != nil && !(n.Kind == "list" && p[len(p)-1].Key == nil) {
+						holders = append(holders, p)
+					}
+				}
+				op.Path = holders[rapid.IntRange(0, len(holders)-1).Draw(t, "set-holder")]
+				hn, _, _ := dm.Resolve(root, model, op.Path)
+				var leaves []*dm.Node
+				var collect func(n *dm.Node, inCase bool)
+				collect = func(n *dm.Node, inCase bool) {
+					for _, ch := range n.Children {
+						switch {
+						case ch.Kind == "choice" || ch.Kind == "case":
+							collect(ch, true)
+						case ch.Kind == "leaf" && inCase && ch.Type.Eff().Base != "empty":
+							leaves = append(leaves, ch)
+						}
+					}
+				}
+				collect(hn, false)
+				if len(leaves) == 0 {
+					continue
+				}
+				lf := leaves[rapid.IntRange(0, len(leaves)-1).Draw(t, "set-leaf")]
+				op.Leaf, op.Value = lf.Name, dm.GenValue(t, lf.Type, "set-value", true)
+				// the same write as a fragment from the root
+				src := dm.Tree{}
+				cur, sn := src, root
+				for _, seg := range op.Path {
+					d := sn.Child(seg.Name)
+					if d.Kind == "list" {
+						e := dm.Tree{}
+						for j, k := range d.Keys {
+							e[k] = seg.Key[j]
+						}
+						cur[seg.Name] = []interface{}{e}
+						cur = e
+					} else {
+						sub := dm.Tree{}
+						cur[seg.Name] = sub
+						cur = sub
+					}
+					sn = d
+				}
+				cur[op.Leaf] = op.Value
+				op.Src = src
 			case "upsert":
 				if prop == "C09" {
 					// fresh content: selects cases independently of the current state
